@@ -4,6 +4,6 @@ from .simprops import generic_run, sizes, sim_replay
 from .p_endpoint import run_endpoint_correspondence
 LABELS = {"C18", "C12", "PANIC"}
 def run(ctx):
-    generic_run(ctx, LABELS, extra=run_endpoint_correspondence, plan=[("long", lambda: F.fam_long(ctx.rng, sizes(ctx, 14, 150))), ("nodrain", lambda: F.fam_long(ctx.rng, sizes(ctx, 6, 60), tag="nd", duration=30000, nodrain=1)), ("all_local", lambda: F.fam_all_local(ctx.rng, sizes(ctx, 30, 300))), ("silent_spectator", lambda: F.fam_silent_spectator(ctx.rng, sizes(ctx, 30, 300))), ("death_long", lambda: F.fam_death_long(ctx.rng, sizes(ctx, 12, 100))), ("lead", lambda: F.fam_lead(ctx.rng, sizes(ctx, 20, 100))), ("event_flood", lambda: F.fam_event_flood(ctx.rng, sizes(ctx, 12, 100)))])
+    generic_run(ctx, LABELS, extra=run_endpoint_correspondence, plan=[("checksum_reorder", lambda: F.fam_checksum_reorder(ctx.rng, sizes(ctx, 12, 120))), ("long", lambda: F.fam_long(ctx.rng, sizes(ctx, 14, 150))), ("nodrain", lambda: F.fam_long(ctx.rng, sizes(ctx, 6, 60), tag="nd", duration=30000, nodrain=1)), ("all_local", lambda: F.fam_all_local(ctx.rng, sizes(ctx, 30, 300))), ("silent_spectator", lambda: F.fam_silent_spectator(ctx.rng, sizes(ctx, 30, 300))), ("death_long", lambda: F.fam_death_long(ctx.rng, sizes(ctx, 12, 100))), ("lead", lambda: F.fam_lead(ctx.rng, sizes(ctx, 20, 100))), ("event_flood", lambda: F.fam_event_flood(ctx.rng, sizes(ctx, 12, 100)))])
 def replay(ctx, path):
     return sim_replay(ctx, path, LABELS)
